@@ -14,6 +14,10 @@ target("codec_probe", ["probes/codec_probe.cpp", "ref/refcodec.cpp", "common/ass
 target("pid_probe", ["probes/pid_probe.cpp", "common/assert_handler.cpp"])
 target("mutex_probe", ["probes/mutex_probe.cpp", "common/assert_handler.cpp"])
 
+SIM_SOURCES = ["sim/simcheck.cpp", "sim/families.cpp", "sim/monitors.cpp", "sim/driver.cpp", "sim/world.cpp", "sim/broker.cpp",
+               "sim/client_impl.cpp", "sim/interpose.cpp", "ref/refcodec.cpp", "common/assert_handler.cpp"]
+target("simcheck", SIM_SOURCES)
+
 ALL_TARGETS = lambda: list(vlib.TARGETS.keys())
 
 
